@@ -186,6 +186,14 @@ def corpus():
       edit(ge, 'GeoEligibility.get_eligible_assignments', lambda n: isinstance(n, ast.Compare) and norm(n) == 'geos is not None', 'geos'))
   add('C16', 'treatment set built from the control column', 'bad', 'R3/selection',
       edit(ge, 'GeoEligibility.get_eligible_assignments', lambda n: isinstance(n, ast.Constant) and n.value == 'treatment', "'control'"))
+  # narrowing skipped under a condition that cannot see the order of the request / under one that can
+  add('C16', 'narrowing skipped when the request covers the table (set and length only)', 'bad', 'R3/selection',
+      edit(ge, 'GeoEligibility.get_eligible_assignments', lambda n: isinstance(n, ast.If) and norm(n.test) == 'geos is not None',
+           lambda s, n: 'if geos is not None:\n      if not (len(geos) == len(df.index) and set(geos) == set(df.index)):\n        df = df.loc[geos]\n      if indices:\n        df = df.reset_index()\n    elif indices:\n      raise ValueError("no geos")'))
+  add('C16', 'benign: narrowing skipped only when the request is the table order', 'nonviolation', None,
+      edit(ge, 'GeoEligibility.get_eligible_assignments', lambda n: isinstance(n, ast.If) and norm(n.test) == 'geos is not None',
+           lambda s, n: 'if geos is not None:\n      if not list(geos) == list(df.index):\n        df = df.loc[geos]\n      if indices:\n        df = df.reset_index()\n    elif indices:\n      raise ValueError("no geos")'))
+  # canonical ids in value form: uniqueness on raw ids while the stored index is converted / on converted ids
   add('C16', 'benign: class formula reordered', 'benign', None, edit(ge, 'GeoAssignments.__init__', lambda n: isinstance(n, ast.Assign) and norm(n.targets[0]) == 'self.cx',
                                                                     lambda s, n: 'self.cx = x & c & not_t'))
   # ---- C17
@@ -399,6 +407,13 @@ def corpus():
   add('C07', 'upper column times cost from lower', 'bad', 'R1/fixed-cost-algebra', edit(ti, 'TBRiROAS.summary', lambda n: isinstance(n, ast.Assign) and norm(n.targets[0]) == "report['incremental_response_upper']" and 'cost' in norm(n.value),
                                                                                          lambda s, n: "report['incremental_response_upper'] = report['lower'] * cost"))
   add('C07', 'rvs without random_state', 'bad', 'R2/determinism', edit(ti, 'TBRiROAS.summary', lambda n: isinstance(n, ast.Call) and norm(n.func) == 'delta_cost.rvs', 'delta_cost.rvs(nsims)'))
+  # the global generator: reached for the seed 0 (truthiness test) / only when no seed was given
+  add('C07', 'seed normalised with a truthiness test: random_state=0 falls back to the global generator', 'bad', 'R2/determinism',
+      edit(ti, 'TBRiROAS.summary', lambda n: isinstance(n, ast.Assign) and norm(n.targets[0]) == 'sims_response',
+           lambda s, n: 'rng_ = np.random.mtrand._rand if not random_state else np.random.RandomState(random_state)\n    sims_response = delta_response.rvs(nsims, random_state=random_state)'))
+  add('C07', 'benign: the global generator only when random_state is None', 'benign', None,
+      edit(ti, 'TBRiROAS.summary', lambda n: isinstance(n, ast.Assign) and norm(n.targets[0]) == 'sims_response',
+           lambda s, n: 'rng_ = np.random.mtrand._rand if random_state is None else np.random.RandomState(random_state)\n    sims_response = delta_response.rvs(nsims, random_state=random_state)'))
   add('C07', 'scenario predicate ignores the pre-period', 'bad', 'R3/scenario', edit(ti, 'TBRiROAS._is_fixed_cost_scenario', is_assign_to('tot_costs'), lambda s, n: 'tot_costs = sum(test_costs_cntrl)'))
   add('C18', 'counterfactual lower uses the lower difference', 'bad', 'R1/column-algebra',
       edit(ti, 'TBRiROAS.estimate_pointwise_and_cumulative_effect', lambda n: isinstance(n, ast.BinOp) and norm(n) == 'treat_vec - upper', 'treat_vec - lower'))
